@@ -13,6 +13,8 @@
                transform_same_motion same_motion_scale same_motion_neg compose2_same_motion
    code layer  compose2_impl_exact inverse_impl_exact transform_impl_exact compose_from_impl_exact,
                mvmul_dist / compose2_impl_close / transform_impl_close (deviation < 6e-14 |t|_inf in the band)
+   rescale     inverse_rescale compose2_rescale compose_from_rescale transform_rescale rescale_keeps_laws rescale_api_lift
+   histories   hstep_inverse hstep_compose hstep_rescale hstep_keeps_objects history_inverse_current
    API layer   compose_api_refines inverse_api_refines transform_api_refines (on complete poses with non-zero
                norm the call returns, and returns the code-layer value); compose_api_snoc (justifies CChain) *)
 From Coq Require Import QArith Qabs Qminmax Qreduction Qfield Bool List Setoid Morphisms Lia Lqa.
@@ -503,4 +505,117 @@ Proof.
   rewrite (close_rot_spec _ _ _ (n2_conj_nonzero _ Hr) Ho), (close_rot_spec _ _ _ Hi Ho).
   apply close_mat_proper; try reflexivity.
   rewrite qinv_n_eq, rot_conj, (rot_inv _ Hr). reflexivity.
+Qed.
+
+(* ------------------------------------------------------------------ rescale (t := s * t) *)
+Lemma vscale_vadd k a b : vscale k (vadd a b) =v= vadd (vscale k a) (vscale k b). Proof. qring. Qed.
+Lemma vscale_vneg k a : vscale k (vneg a) =v= vneg (vscale k a). Proof. qring. Qed.
+Lemma vscale_vscale k l a : vscale k (vscale l a) =v= vscale (k * l) a. Proof. qring. Qed.
+Lemma vscale_one a : vscale 1 a =v= a. Proof. qring. Qed.
+Lemma vscale_vzero k : vscale k vzero =v= vzero. Proof. qring. Qed.
+Lemma vn2_vscale k a : vn2 (vscale k a) == k * k * vn2 a. Proof. qring. Qed.
+
+#[export] Instance rescale_proper : Proper (Qeq ==> peq ==> peq) rescale.
+Proof. intros s s' Hs a a' [A1 A2]. unfold rescale. rewrite Hs, A1, A2. reflexivity. Qed.
+
+Lemma rescale_valid s p : valid p -> valid (rescale s p).
+Proof. exact (fun H => H). Qed.
+Lemma rescale_one p : rescale 1 p =p= p.
+Proof. split; cbn [rescale pr pt]; [reflexivity | apply vscale_one]. Qed.
+Lemma rescale_rescale k l p : rescale k (rescale l p) =p= rescale (k * l) p.
+Proof. split; cbn [rescale pr pt]; [reflexivity | apply vscale_vscale]. Qed.
+Lemma rescale_pid s : rescale s pid =p= pid.
+Proof. split; cbn [rescale pid pr pt]; [reflexivity | apply vscale_vzero]. Qed.
+
+(* rescaling commutes with every operation: the inverse of the rescaled pose is the rescaled inverse, ... *)
+Theorem inverse_rescale s p : inverse (rescale s p) =p= rescale s (inverse p).
+Proof.
+  unfold inverse, rescale. cbv zeta. cbn [pr pt]. split; cbn [pr pt]; [reflexivity|].
+  rewrite <- vscale_vneg, mvmul_vscale. reflexivity.
+Qed.
+Theorem compose2_rescale s a b : compose2 (rescale s a) (rescale s b) =p= rescale s (compose2 a b).
+Proof.
+  unfold compose2, rescale. cbn [pr pt]. split; cbn [pr pt]; [reflexivity|].
+  rewrite mvmul_vscale, vscale_vadd. reflexivity.
+Qed.
+Theorem compose_from_rescale s ps : forall p,
+  compose_from (rescale s p) (map (rescale s) ps) =p= rescale s (compose_from p ps).
+Proof.
+  induction ps as [|q ps IH]; intros p; [reflexivity|]. cbn [map]. rewrite !compose_from_cons.
+  rewrite (compose_from_proper_l _ _ _ (compose2_rescale s p q)). apply IH.
+Qed.
+Theorem transform_rescale s p x : transform (rescale s p) (vscale s x) =v= vscale s (transform p x).
+Proof. unfold transform, rescale. cbn [pr pt]. rewrite mvmul_vscale, vscale_vadd. reflexivity. Qed.
+
+(* hence every group law holds for the pose as it is after any number of rescalings *)
+Corollary rescale_keeps_laws s p : valid p ->
+  compose2 (rescale s p) (inverse (rescale s p)) =p= pid /\
+  compose2 (inverse (rescale s p)) (rescale s p) =p= pid /\
+  inverse (inverse (rescale s p)) =p= rescale s p.
+Proof.
+  intros V. pose proof (rescale_valid s p V) as V'.
+  split; [|split]; [apply compose2_inverse_r | apply compose2_inverse_l | apply inverse_involutive]; assumption.
+Qed.
+
+(* the API version is the same function of the current value *)
+Lemma rescale_api_lift s p : oeq (rescale_api s (lift p)) (lift (rescale s p)).
+Proof. split; cbn; [reflexivity | apply vred_eq]. Qed.
+Lemma rescale_api_none s r : rescale_api s (mkO r None) = mkO r None.
+Proof. reflexivity. Qed.
+
+(* ------------------------------------------------------------------ histories: objects hold only (r, t) *)
+Lemma nth_error_set_nth_same {A} (l : list A) i x : (i < length l)%nat -> nth_error (set_nth l i x) i = Some x.
+Proof. revert i; induction l as [|y l IH]; intros [|i] H; cbn in *; try lia; [reflexivity | apply IH; lia]. Qed.
+Lemma nth_error_set_nth_other {A} (l : list A) i j x : i <> j -> nth_error (set_nth l i x) j = nth_error l j.
+Proof.
+  revert i j; induction l as [|y l IH]; intros [|i] [|j] H; cbn; try reflexivity; try congruence.
+  apply IH. congruence.
+Qed.
+Lemma length_set_nth {A} (l : list A) i x : length (set_nth l i x) = length l.
+Proof. revert i; induction l as [|y l IH]; intros [|i]; cbn; try reflexivity. rewrite IH. reflexivity. Qed.
+
+(* inverse(): a new object, equal to inverse_api of the CURRENT value of object i; no existing object changes *)
+Theorem hstep_inverse st i st' : hstep st (HInverse i) = Some st' ->
+  exists p m, nth_error st i = Some p /\ inverse_api p = Ok m /\ st' = st ++ [m].
+Proof.
+  cbn. destruct (nth_error st i) as [p|]; [|discriminate]. destruct (inverse_api p) as [m| |] eqn:E; try discriminate.
+  intros H; inversion H; subst. exists p, m. auto.
+Qed.
+Theorem hstep_compose st ids st' : hstep st (HCompose ids) = Some st' ->
+  exists ps m, nths st ids = Some ps /\ compose_api ps = Ok m /\ st' = st ++ [m].
+Proof.
+  cbn. destruct (nths st ids) as [ps|]; [|discriminate]. destruct (compose_api ps) as [m| |] eqn:E; try discriminate.
+  intros H; inversion H; subst. exists ps, m. auto.
+Qed.
+(* rescale(): only its target changes, to rescale_api of its current value *)
+Theorem hstep_rescale st i s st' : hstep st (HRescale i s) = Some st' ->
+  exists p, nth_error st i = Some p /\ nth_error st' i = Some (rescale_api s p) /\
+            length st' = length st /\ forall j, j <> i -> nth_error st' j = nth_error st j.
+Proof.
+  cbn. destruct (nth_error st i) as [p|] eqn:E; [|discriminate]. intros H; inversion H; subst. exists p.
+  assert (L : (i < length st)%nat) by (apply nth_error_Some; congruence).
+  repeat split.
+  - apply nth_error_set_nth_same; assumption.
+  - apply length_set_nth.
+  - intros j Hj. apply nth_error_set_nth_other. congruence.
+Qed.
+(* existing objects are never changed by inverse / compose *)
+Corollary hstep_keeps_objects st op st' j x : (forall i s, op <> HRescale i s) ->
+  hstep st op = Some st' -> nth_error st j = Some x -> nth_error st' j = Some x.
+Proof.
+  intros NR H N. destruct op as [i|ids|i s].
+  - destruct (hstep_inverse _ _ _ H) as (p & m & _ & _ & ->). rewrite nth_error_app1; [assumption|]. apply nth_error_Some; congruence.
+  - destruct (hstep_compose _ _ _ H) as (ps & m & _ & _ & ->). rewrite nth_error_app1; [assumption|]. apply nth_error_Some; congruence.
+  - exfalso. eapply NR. reflexivity.
+Qed.
+(* history independence, the form used against a memoised inverse: whatever program ran before, inverting
+   object i gives inverse_api of what object i holds NOW, and on a valid pose that is the group inverse of it *)
+Theorem history_inverse_current st ops st1 i p st2 :
+  hrun st ops = Some st1 -> nth_error st1 i = Some (lift p) -> valid p ->
+  hstep st1 (HInverse i) = Some st2 ->
+  exists m, st2 = st1 ++ [m] /\ oeq m (lift (inverse_impl p)).
+Proof.
+  intros _ N V H. destruct (hstep_inverse _ _ _ H) as (p' & m & N' & E & ->).
+  rewrite N in N'. inversion N'; subst p'. destruct (inverse_api_refines p V) as (m' & E' & O).
+  rewrite E in E'. inversion E'; subst m'. exists m. auto.
 Qed.
